@@ -7,6 +7,7 @@ import (
 	"go/token"
 	"go/types"
 	"os"
+	"sort"
 	"strings"
 
 	"golang.org/x/tools/go/ssa"
@@ -38,6 +39,8 @@ func runC08(c *Ctx) {
 	ruleNoSharedCapture(c, "R08.g")
 	ruleAuthenticatorListOwnership(c, "R08.h")
 	ruleAuthenticatorsReadOnly(c, "R08.i")
+	ruleRecycledObjectsReset(c, "R08.p")
+	ruleManagerConsultsAll(c, "R08.k")
 	c.assume("string == compares all bytes; the authenticator registry may be extended by the application")
 }
 
@@ -976,6 +979,9 @@ func runC09(c *Ctx) {
 	ruleAuthenticatorListOwnership(c, "R09.f")
 	// a certificate rule's refusal must not be overridden by a later authenticator's acceptance
 	ruleEqualityForSuccess(c, "R09.g")
+	ruleCertificateSuccess(c, "R09.i")
+	ruleNoSlotAcrossHandshake(c, "R09.j")
+	ruleManagerConsultsAll(c, "R09.k")
 	ruleCloseOnEveryExit(c, "R19.a")
 	c.assume("crypto/tls performs X.509 path validation and expiry checks for RequireAndVerifyClientCert; an application-supplied tls.Config (ConfigTLSConfig) replaces the generated one")
 }
@@ -1818,4 +1824,194 @@ func isExactEqualityHelper(h *ssa.Function) bool {
 		}
 	})
 	return clean
+}
+
+// ruleCertificateSuccess: an authenticator that reads the TLS connection state says yes only
+// for the configured subject. A session that was resumed, a chain that verified, a certificate
+// that is merely present are not the comparison.
+func ruleCertificateSuccess(c *Ctx, rid string) {
+	c.rule(rid, "in every Authenticator of package auth that reads conn.TLSConnectionState(): each path to a `true` result crosses the equal edge of an exact comparison between a certificate's Subject.CommonName and a field of the receiver, or the result is that comparison itself")
+	n := 0
+	isCNCompare := func(x, y ssa.Value, recv ssa.Value) bool {
+		for _, pr := range [][2]ssa.Value{{x, y}, {y, x}} {
+			_, f, _, ok := fieldOf(strip(pr[0]))
+			if !ok || f != "CommonName" {
+				continue
+			}
+			if _, _, base, ok := fieldOf(strip(pr[1])); ok && strip(base) == recv {
+				return true
+			}
+		}
+		return false
+	}
+	for _, fn := range c.P.RepoFuncs(pkgAuth) {
+		if fn.Name() != "Authenticate" || fn.Signature.Recv() == nil || fnName(fn) == "(*auth.AuthManager).Authenticate" {
+			continue
+		}
+		reads := false
+		allInstrs(fn, func(ins ssa.Instruction) {
+			if call, ok := ins.(*ssa.Call); ok && call.Common().IsInvoke() && call.Common().Method.Name() == "TLSConnectionState" {
+				reads = true
+			}
+		})
+		if !reads {
+			continue
+		}
+		n++
+		c.analysed(fn)
+		key := fnName(fn) + "/true-only-for-the-subject"
+		recv := ssa.Value(fn.Params[0])
+		type st struct{ Done bool }
+		a := &Auto[st]{Fn: fn, Init: st{},
+			Step: func(s st, ins ssa.Instruction, fail func(string)) []st {
+				if r, ok := ins.(*ssa.Return); ok && len(r.Results) >= 1 {
+					res := retOperand(r, 0)
+					if b, isC := constBool(res); isC {
+						if b && !s.Done {
+							fail("the authenticator returns true on a path that has not compared the certificate's common name with the configured one")
+						}
+					} else if bo, isBO := strip(res).(*ssa.BinOp); isBO && bo.Op == token.EQL && isCNCompare(bo.X, bo.Y, recv) {
+						// the result is the comparison
+					} else if !s.Done {
+						fail("the authenticator's result on this path is neither a constant nor the common-name comparison: not modelled")
+					}
+				}
+				return []st{s}
+			},
+			Edge: func(s st, b *ssa.BasicBlock, idx int) (st, bool) {
+				for _, at := range edgeOnly(b, idx) {
+					if at.Kind == "eq" && at.Pos && isCNCompare(at.X, at.Y, recv) {
+						s.Done = true
+					}
+				}
+				return s, true
+			}}
+		res := a.Run()
+		if len(res.Errs) == 0 {
+			c.ok(rid, key, c.P.pos(fn.Pos()), "every path to true crosses the equal edge of the common-name comparison")
+		}
+		for i, e := range res.Errs {
+			c.bad(rid, fmt.Sprintf("%s/path#%d", key, i), c.P.instrPos(e.Ins), e.Msg, e.witness(c.P)...)
+		}
+	}
+	c.count("certificate-authenticators", n)
+	c.floor("certificate-authenticators", 1)
+}
+
+// ruleManagerConsultsAll: the manager's yes is the conjunction of its authenticators. A yes
+// that is reachable without running the loop over the list (a memo of credentials seen before,
+// a fast path), or from inside the loop (the first authenticator that agrees), is a yes some
+// authenticator — the certificate check of this very connection — was never asked for.
+func ruleManagerConsultsAll(c *Ctx, rid string) {
+	c.rule(rid, "in AuthManager.Authenticate every return whose result can be true lies outside the loop over the authenticator list, is reachable from the entry only through that loop's header, and is reached from the loop only through the exit of the header (the list exhausted), never from an exit inside the loop body")
+	mgr := c.P.Method(pkgAuth, "AuthManager", "Authenticate")
+	if !c.anchor(rid, mgr, "auth.(*AuthManager).Authenticate") {
+		return
+	}
+	c.analysed(mgr)
+	var inv *ssa.Call
+	allInstrs(mgr, func(ins ssa.Instruction) {
+		if call, ok := ins.(*ssa.Call); ok && call.Common().IsInvoke() && call.Common().Method.Name() == "Authenticate" {
+			inv = call
+		}
+	})
+	key := "AuthManager.Authenticate/consults-all"
+	if inv == nil {
+		c.undecided(rid, key, c.P.pos(mgr.Pos()), "no call of an authenticator's Authenticate in the manager: the conjunction is not in a form the rule reads")
+		return
+	}
+	var loop *Loop
+	for _, l := range naturalLoops(mgr) {
+		if l.Blocks[inv.Block()] && (loop == nil || len(l.Blocks) < len(loop.Blocks)) {
+			loop = l
+		}
+	}
+	if loop == nil {
+		c.undecided(rid, key, c.P.instrPos(inv), "the authenticators are not consulted in a loop over the list: not modelled")
+		return
+	}
+	reachAvoidingHeader := func(from []*ssa.BasicBlock) map[*ssa.BasicBlock]bool {
+		seen := map[*ssa.BasicBlock]bool{}
+		st := append([]*ssa.BasicBlock{}, from...)
+		for len(st) > 0 {
+			x := st[len(st)-1]
+			st = st[:len(st)-1]
+			if seen[x] || x == loop.Header {
+				continue
+			}
+			seen[x] = true
+			st = append(st, x.Succs...)
+		}
+		return seen
+	}
+	fromEntry := reachAvoidingHeader([]*ssa.BasicBlock{mgr.Blocks[0]})
+	var bodyExits []*ssa.BasicBlock
+	for b := range loop.Blocks {
+		if b == loop.Header {
+			continue
+		}
+		for _, s := range b.Succs {
+			if !loop.Blocks[s] {
+				bodyExits = append(bodyExits, s)
+			}
+		}
+	}
+	fromBody := reachAvoidingHeader(bodyExits)
+	var bad []string
+	for _, r := range returnsOf(mgr) {
+		if r.Block() == mgr.Recover || len(r.Results) == 0 {
+			continue
+		}
+		if b, isC := constBool(retOperand(r, 0)); isC && !b {
+			continue
+		}
+		switch {
+		case loop.Blocks[r.Block()]:
+			bad = append(bad, fmt.Sprintf("%s: a result that can be true is returned from inside the loop over the authenticators", c.P.instrPos(r)))
+		case fromEntry[r.Block()] && emptyListFact(factsAt(r.Block()), mgr.Params[0]):
+			// nothing to ask: the list is empty on this path
+		case fromEntry[r.Block()]:
+			bad = append(bad, fmt.Sprintf("%s: a result that can be true is reachable without entering the loop over the authenticators", c.P.instrPos(r)))
+		case fromBody[r.Block()]:
+			bad = append(bad, fmt.Sprintf("%s: a result that can be true is reachable from an exit inside the loop body (before the list is exhausted)", c.P.instrPos(r)))
+		}
+	}
+	sort.Strings(bad)
+	if len(bad) > 0 {
+		c.bad(rid, key, c.P.instrPos(inv), "the manager can say yes without having asked every authenticator", bad...)
+		return
+	}
+	c.ok(rid, key, c.P.instrPos(inv), "every result that can be true follows the exhaustion of the authenticator list")
+}
+
+// emptyListFact: the facts say that len(recv.<slice field>) == 0.
+func emptyListFact(facts []Atom, recv ssa.Value) bool {
+	for _, at := range facts {
+		if !(at.Kind == "eq" && at.Pos) && !(at.Kind == "lt" && !at.Pos) && !(at.Kind == "le" && at.Pos) {
+			continue
+		}
+		for _, pr := range [][2]ssa.Value{{at.X, at.Y}, {at.Y, at.X}} {
+			call, ok := pr[0].(*ssa.Call)
+			if !ok {
+				continue
+			}
+			b, isB := call.Call.Value.(*ssa.Builtin)
+			if !isB || b.Name() != "len" || len(call.Call.Args) != 1 {
+				continue
+			}
+			if k, isK := constInt(pr[1]); !isK || k != 0 {
+				continue
+			}
+			if at.Kind == "lt" && pr[0] != at.Y { // !(0 < len)
+				continue
+			}
+			if at.Kind == "le" && pr[0] != at.X { // len <= 0
+				continue
+			}
+			if _, _, base, ok := fieldOf(strip(call.Call.Args[0])); ok && strip(base) == recv {
+				return true
+			}
+		}
+	}
+	return false
 }
